@@ -68,6 +68,7 @@ type world struct {
 	shadowRan   bool
 	shadowMsg   string
 	stopJudging bool
+	braceLiteral bool
 	c           *sim.Case
 	e           *sim.Env
 	mode        string
@@ -628,6 +629,17 @@ func (w *world) doOp(ctx context.Context, ts *taskState, op sim.Op, i int) {
 			}
 			if msg == "" {
 				msg = w.m.applyList(g.Match, &o, t0, t1)
+				if msg != "" && strings.ContainsAny(op.S, "{}") {
+					// would the outcome be right if braces were ordinary characters (the glob
+					// dialect of Redis has no {a,b} alternatives; the contract refers to gobwas/glob)?
+					lit := strings.NewReplacer("{", "\\{", "}", "\\}").Replace(op.S)
+					if gl, err := glob.Compile(lit); err == nil {
+						oo := o
+						if w.m.applyList(gl.Match, &oo, t0, t1) == "" {
+							w.braceLiteral = true
+						}
+					}
+				}
 			}
 			w.shadow(func(m *model) string {
 				gn, err := glob.Compile(nrm(op.S))
@@ -679,6 +691,11 @@ func (w *world) doOp(ctx context.Context, ts *taskState, op sim.Op, i int) {
 		oracle := "contract"
 		if w.prop() == "C06" {
 			oracle = "expired_not_as_deleted"
+		}
+		if w.braceLiteral {
+			oracle = "brace_alternatives_taken_literally"
+			msg += " - explained by: {a,b} alternatives of the pattern are taken as ordinary characters"
+			w.stopJudging = true
 		}
 		if aliased {
 			oracle = "leading_slash_keys_aliased"
